@@ -770,6 +770,9 @@ func runServerScenario(skipVerify bool, secretSpec string, cmds []string, w *os.
 // Every scenario runs in a subprocess: a double close of lastActive inside a datagram goroutine is
 // an unrecoverable panic, which must be an observation ("CRASH"), not the death of the harness.
 func evalServerSub(op string, args []string) string {
+	if op == "nilcfg" && len(args) == 1 {
+		return runNilCfg()
+	}
 	if (op == "dups" || op == "downs") && len(args) == 1 {
 		args = []string{op, args[0], "-"}
 	} else if op != "scenario" || len(args) != 3 {
@@ -810,6 +813,43 @@ func evalServerInproc(args []string) string {
 		return "BAD-CASE"
 	}
 	return runServerScenario(skip, args[1], strings.Split(args[2], ","), nil)
+}
+
+// ---- a server without Handler / without SecretSource: Serve and ListenAndServe refuse at once (an error, no
+// panic, nothing registered), and a later Shutdown returns nil
+func runNilCfg() (out string) {
+	defer func() {
+		if r := recover(); r != nil {
+			out = fmt.Sprintf("PANIC(%v)", r)
+		}
+	}()
+	var toks []string
+	for k, srv := range []*radius.PacketServer{
+		{SecretSource: radius.StaticSecretSource([]byte("s"))},
+		{Handler: radius.HandlerFunc(func(w radius.ResponseWriter, r *radius.Request) {})},
+		{},
+	} {
+		conn := &dupConn{in: make(chan []byte), closed: make(chan struct{})}
+		ret := make(chan error, 2)
+		go func() { ret <- srv.Serve(conn) }()
+		go func() { srv.Addr = "127.0.0.1:0"; ret <- srv.ListenAndServe() }()
+		for i := 0; i < 2; i++ {
+			select {
+			case err := <-ret:
+				if err == nil || err == radius.ErrServerShutdown {
+					toks = append(toks, fmt.Sprintf("cfg%d=%s", k, errName(err)))
+				} else {
+					toks = append(toks, fmt.Sprintf("cfg%d=refused", k))
+				}
+			case <-time.After(3 * time.Second):
+				toks = append(toks, fmt.Sprintf("cfg%d=HANG", k))
+			}
+		}
+		ctx, cancel := context.WithTimeout(context.Background(), 3*time.Second)
+		toks = append(toks, fmt.Sprintf("shutdown%d=%s", k, errName(srv.Shutdown(ctx))))
+		cancel()
+	}
+	return strings.Join(toks, " ")
 }
 
 // ---- free-running concurrent Shutdown calls: n goroutines call Shutdown at the same moment, on a fresh
@@ -994,6 +1034,7 @@ func genC06(g *Gen, tier string, emit func(op string, args ...string)) {
 	for k := 0; k < n/10; k++ {
 		emit("dups", itoa(g.Pick(2, 3, 5, 8, 16)))
 	}
+	emit("nilcfg", "-")
 	// directed: two or three requests from DIFFERENT peers (and from one peer with different identifiers)
 	// in flight on one Serve call; the handlers reply in every order — each reply must go to its own
 	// request's source
